@@ -39,6 +39,7 @@ func runC12(c *Ctx) {
 		return
 	}
 	c.serialSequenceRule("E6.serial")
+	cw := c.connWrites()
 	onActive := c.P.Method("service", "connection", "onActiveEvent")
 	onResp := c.P.Method("service", "connection", "onActiveRespondEvent")
 	writeFn := c.P.Method("service", "connection", "write")
@@ -85,7 +86,8 @@ func runC12(c *Ctx) {
 				}
 			}
 			a.OnExternal = func(f *ssa.Function, site ssa.Instruction, name string, st *absint.State, eargs []absint.Term) {
-				if strings.HasSuffix(name, ").Write") && strings.Contains(name, "net.") && f == onActive {
+				_, inWrapper := cw.wrappers[f]
+				if strings.HasSuffix(name, ").Write") && strings.Contains(name, "net.") && (f == onActive || inWrapper) {
 					writes = append(writes, eargs[len(eargs)-1])
 				}
 				if strings.HasSuffix(name, ".Encode") && strings.Contains(name, "Header") {
@@ -129,7 +131,7 @@ func runC12(c *Ctx) {
 		nW := 0
 		for _, b := range onActive.Blocks {
 			for _, ins := range b.Instrs {
-				if call, isC := ins.(*ssa.Call); isC && strings.HasSuffix(calleeName(&call.Call), ").Write") {
+				if cw.is(ins) {
 					nW++
 				}
 			}
@@ -148,40 +150,61 @@ func runC12(c *Ctx) {
 			site ssa.Instruction
 		}
 		var preds []pred
-		for _, b := range onResp.Blocks {
-			for _, ins := range b.Instrs {
-				st, ok := ins.(*ssa.Store)
-				if !ok {
-					continue
-				}
-				fa, ok := st.Addr.(*ssa.FieldAddr)
-				if !ok {
-					continue
-				}
-				stt := fa.X.Type().Underlying().(*types.Pointer).Elem().Underlying().(*types.Struct)
-				if stt.Field(fa.Field).Name() != "HasRespondFunc" {
-					continue
-				}
-				var pfn *ssa.Function
-				switch v := st.Val.(type) {
-				case *ssa.MakeClosure:
-					pfn = v.Fn.(*ssa.Function)
-				case *ssa.Function:
-					pfn = v // a function literal that captures nothing
-				default:
-					continue
-				}
-				// the response type: the model type whose pointer is stored into the handler field in the same block
-				typ := "?"
-				for _, i2 := range b.Instrs {
-					if al, isAl := i2.(*ssa.Alloc); isAl {
-						if n, okN := derefNamed(al.Type()); okN && strings.HasPrefix(n, "T0x") {
-							typ = n
+		// the predicates, by role: function literals of onActiveRespondEvent with the signature func(uint16) bool
+		// (however they are stored: struct field, local variable, φ of closures)
+		isPredSig := func(sig *types.Signature) bool {
+			if sig.Params().Len() != 1 || sig.Results().Len() != 1 {
+				return false
+			}
+			pb, ok1 := sig.Params().At(0).Type().Underlying().(*types.Basic)
+			rb, ok2 := sig.Results().At(0).Type().Underlying().(*types.Basic)
+			return ok1 && ok2 && pb.Kind() == types.Uint16 && rb.Kind() == types.Bool
+		}
+		for _, an := range onResp.AnonFuncs {
+			if !isPredSig(an.Signature) {
+				continue
+			}
+			var site ssa.Instruction
+			typ := "?"
+			for _, b := range onResp.Blocks {
+				for _, ins := range b.Instrs {
+					mc, isMC := ins.(*ssa.MakeClosure)
+					uses := isMC && mc.Fn == ssa.Value(an)
+					if !isMC {
+						// a literal that captures nothing is used as a plain function value
+						for _, op := range ins.Operands(nil) {
+							if *op == ssa.Value(an) {
+								uses = true
+							}
+						}
+					}
+					if !uses {
+						continue
+					}
+					site = ins
+					// the response type: a captured model value, else the model value allocated in the same block
+					if isMC {
+						for _, bv := range mc.Bindings {
+							if n, okN := derefNamed(bv.Type()); okN && strings.HasPrefix(n, "T0x") {
+								typ = n
+							}
+						}
+					}
+					if typ == "?" {
+						for _, i2 := range b.Instrs {
+							if al, isAl := i2.(*ssa.Alloc); isAl {
+								if n, okN := derefNamed(al.Type()); okN && strings.HasPrefix(n, "T0x") {
+									typ = n
+								}
+							}
 						}
 					}
 				}
-				preds = append(preds, pred{pfn, typ, st})
 			}
+			if site == nil {
+				continue
+			}
+			preds = append(preds, pred{an, typ, site})
 		}
 		sort.Slice(preds, func(i, j int) bool { return preds[i].typ < preds[j].typ })
 		seenTypes := map[string]bool{}
@@ -332,6 +355,7 @@ func runC12(c *Ctx) {
 	{
 		R.Rules["S.match-all"] = "the matching loop ranges over the whole table of outstanding requests: an entry that does not match leads to the next entry (not out of the loop), and nothing is completed unless an entry matched"
 		ok, d := false, "no range loop over the outstanding table that tests the response predicate found"
+		var loopHead *ssa.BasicBlock
 		for _, b := range onResp.Blocks {
 			iff, isIf := b.Instrs[len(b.Instrs)-1].(*ssa.If)
 			if !isIf {
@@ -350,7 +374,13 @@ func runC12(c *Ctx) {
 			if !isC {
 				continue
 			}
-			if _, f, isF := fieldLoad(call.Call.Value); !isF || f != "HasRespondFunc" {
+			// by role: a dynamic call of a func(uint16) bool value (the response predicate, however it is stored)
+			if call.Call.IsInvoke() || call.Call.StaticCallee() != nil || len(call.Call.Args) != 1 {
+				continue
+			}
+			if sig, isSig := call.Call.Value.Type().Underlying().(*types.Signature); !isSig || sig.Params().Len() != 1 || sig.Results().Len() != 1 {
+				continue
+			} else if pb, isB := sig.Params().At(0).Type().Underlying().(*types.Basic); !isB || pb.Kind() != types.Uint16 {
 				continue
 			}
 			// the argument is the key of a range over the outstanding map
@@ -378,6 +408,7 @@ func runC12(c *Ctx) {
 			}
 			if miss == head {
 				ok, d = true, ""
+				loopHead = head
 			} else {
 				ok, d = false, "when an outstanding request does not match, the loop is left instead of trying the next one: with several commands outstanding a correct response is dropped (or given to another request) depending on map iteration order"
 			}
@@ -388,6 +419,102 @@ func runC12(c *Ctx) {
 		}
 		R.Add("S.match-all", shortFn(onResp)+" / a non-matching entry leads to the next entry", c.P.RelPos(onResp.Pos()), st, d)
 		R.Require("S.match-all", 1, "")
+		// ---- nothing but "no predicate for this type" and "the body does not parse" keeps a response from the matching loop
+		if loopHead != nil {
+			R.Rules["S.reach-matcher"] = "a response of a correlated type reaches the matching loop unless its body fails to parse: before the loop, the function is left only on a nil test of the predicate / handler selected by the type switch or on the error of Parse (a guard on other properties of the message - sub-package fields, flags - makes responses that echo the right serial time out)"
+			canReach := map[*ssa.BasicBlock]bool{}
+			var back func(b *ssa.BasicBlock)
+			back = func(b *ssa.BasicBlock) {
+				if canReach[b] {
+					return
+				}
+				canReach[b] = true
+				for _, p := range b.Preds {
+					back(p)
+				}
+			}
+			back(loopHead)
+			after := map[*ssa.BasicBlock]bool{}
+			var fwd func(b *ssa.BasicBlock)
+			fwd = func(b *ssa.BasicBlock) {
+				if after[b] {
+					return
+				}
+				after[b] = true
+				for _, s := range b.Succs {
+					fwd(s)
+				}
+			}
+			fwd(loopHead)
+			okR, dR, nExit := true, "", 0
+			for _, b := range onResp.Blocks {
+				if !canReach[b] || after[b] {
+					continue
+				}
+				iff, isIf := b.Instrs[len(b.Instrs)-1].(*ssa.If)
+				if !isIf {
+					continue
+				}
+				exits := false
+				for _, su := range b.Succs {
+					if !canReach[su] {
+						exits = true
+					}
+				}
+				if !exits {
+					continue
+				}
+				nExit++
+				cond := iff.Cond
+				for {
+					u, isU := cond.(*ssa.UnOp)
+					if !isU || u.Op != token.NOT {
+						break
+					}
+					cond = u.X
+				}
+				just := false
+				if cmp, isCmp := cond.(*ssa.BinOp); isCmp && (cmp.Op == token.EQL || cmp.Op == token.NEQ) {
+					x, y := cmp.X, cmp.Y
+					if k, isK := x.(*ssa.Const); isK && k.IsNil() {
+						x, y = y, x
+					}
+					if k, isK := y.(*ssa.Const); isK && k.IsNil() {
+						switch x.Type().Underlying().(type) {
+						case *types.Signature:
+							just = true // no predicate for this message type
+						case *types.Interface:
+							// the handler selected by the type switch, or the error of its Parse
+							if ex, isCall := x.(*ssa.Call); isCall {
+								if n, _ := callMethodName(ex); n == "Parse" {
+									just = true
+								}
+							} else {
+								just = true
+								if n, isN := x.Type().(*types.Named); isN && n.Obj().Name() == "error" {
+									just = false
+									for _, o := range c.origins(x, nil, nil) {
+										if o.Kind == "call" && strings.HasSuffix(o.Name, ".Parse") {
+											just = true
+										}
+									}
+								}
+							}
+						}
+					}
+				}
+				if !just {
+					okR = false
+					dR = fmt.Sprintf("the test at %s leaves onActiveRespondEvent before the matching loop for a reason other than 'no predicate for this type' or 'the body does not parse': a response that echoes an outstanding serial is not matched and its command times out", c.P.RelPos(instrPos(cond)))
+				}
+			}
+			R.Notes["exits_before_matching_loop"] = nExit
+			st := report.Discharged
+			if !okR {
+				st = report.Violated
+			}
+			R.Add("S.reach-matcher", shortFn(onResp)+" / only type selection and parse failure keep a response from the matching loop", c.P.RelPos(onResp.Pos()), st, dR)
+		}
 	}
 	// ---- 3/4. completion send + delete; fall-through
 	{
